@@ -80,7 +80,7 @@ def main(argv):
         traceback.print_exc()
         return 3
     _G["reg"], _G["repo"] = reg, repo
-    timeout = 20 if tier == "quick" else 120
+    timeout = 30 if tier == "quick" else 120
     keys = [k for k, c in reg["contracts"].items() if prop in c.props and not c.abstract and not c.trusted]
     keys += [k for k, lm in reg["lemmas"].items() if prop in lm.props]
     results = run_functions(keys, timeout)
